@@ -12,6 +12,8 @@
 //   S <iter> <slot> <event> <track> <parent> <nsteps> <action> <particle>
 //     <steplen> <edep>  <t0 x0 y0 z0 dx0 dy0 dz0 vol0 E0>  <t1 ... E1>
 //     <vol_mid> <vol_post> <vol_nudged> <status after the step>
+//     <step limit right after pre-step> <status right after pre-step>   (read by an own
+//      user_pre action from sim.step_length / sim.status; "nan"/-1 if not recorded)
 //   (vol_* = independent point location by a fresh geometry initialisation at
 //    the step midpoint, the post point (-3: on a boundary, not located) and the
 //    post point nudged 1e-6 along the direction; -1 outside, -2 failed)
@@ -27,6 +29,9 @@
 #include "celeritas/geo/GeoData.hh"
 #include "celeritas/geo/GeoParams.hh"
 #include "celeritas/geo/GeoTrackView.hh"
+#include "corecel/sys/ActionInterface.hh"
+#include "celeritas/global/ActionInterface.hh"
+#include "celeritas/global/CoreState.hh"
 #include "celeritas/global/Stepper.hh"
 #include "celeritas/phys/ParticleView.hh"
 #include "celeritas/phys/Primary.hh"
@@ -40,6 +45,38 @@ using verif::hex;
 
 namespace
 {
+//! What an own action at StepActionOrder::user_pre sees: the physics limit
+struct PreData
+{
+    std::vector<double> limit;
+    std::vector<int> status;
+};
+
+class PreRecorder final : public CoreStepActionInterface, public ConcreteAction
+{
+  public:
+    PreRecorder(ActionId id, std::shared_ptr<PreData> d)
+        : ConcreteAction{id, "verif-pre-recorder"}, data_(std::move(d))
+    {
+    }
+    void step(CoreParams const&, CoreStateHost& state) const final
+    {
+        auto const& sim = state.ref().sim;
+        data_->limit.assign(state.size(), std::nan(""));
+        data_->status.assign(state.size(), -1);
+        for (auto tid : range(TrackSlotId{state.size()}))
+        {
+            data_->limit[tid.get()] = sim.step_length[tid];
+            data_->status[tid.get()] = static_cast<int>(sim.status[tid]);
+        }
+    }
+    void step(CoreParams const&, CoreStateDevice&) const final {}
+    StepActionOrder order() const final { return StepActionOrder::user_pre; }
+
+  private:
+    std::shared_ptr<PreData> data_;
+};
+
 class Collector final : public StepInterface
 {
   public:
@@ -107,12 +144,22 @@ class Collector final : public StepInterface
                << (on_bnd ? -3 : locate(b, pd)) << ' ' << locate(nudged, pd);
             os << ' '
                << (status ? static_cast<int>((*status)[tid]) : -1);
+            if (pre_data && tid.get() < pre_data->limit.size())
+            {
+                os << ' ' << hex(pre_data->limit[tid.get()]) << ' '
+                   << pre_data->status[tid.get()];
+            }
+            else
+            {
+                os << " nan -1";
+            }
             std::cout << os.str() << '\n';
         }
     }
 
     long iter{0};
     ActionId boundary_action;
+    std::shared_ptr<PreData> pre_data;
     StateCollection<TrackStatus, Ownership::reference, MemSpace::host> const* status{
         nullptr};
 
@@ -147,6 +194,12 @@ void run_problem(P& prob,
 
     auto coll = std::make_shared<Collector>(core->geometry());
     StepCollector::make_and_insert(*core, {coll});
+    coll->pre_data = std::make_shared<PreData>();
+    {
+        auto& areg = *prob.action_reg();
+        areg.insert(
+            std::make_shared<PreRecorder>(areg.next_id(), coll->pre_data));
+    }
 
     StepperInput si;
     si.params = core;
